@@ -168,9 +168,15 @@ HARNESSES = [
       strength="B(3 bytes at window index 5; 1+2 bytes straddling the window end; complete in data, flags, window bits, flush mode, dictionary size)",
       note="flush_block replaced by a no-op model (not reached: the token buffer is far from full)"),
     # ---- K-normal-early ----
-    H("k_normal_early_return_keeps_lazy_state", "K-normal-early", ["C01", "C02"], fns=["compress_normal (first token decision and early return after flush_block)"], cost=80, timeout=900,
+    H("k_normal_early_return_keeps_lazy_state", "K-normal-early", ["C01", "C02", "C10"], fns=["compress_normal (first token decision and early return after flush_block)"], cost=80, timeout=900,
       strength="B(3 concrete input bytes at window position 40000, one token decision; complete in flags, window bits, dictionary size, matcher result, flush_block result)",
       note="find_match / record_match / record_literal / flush_block replaced by contract models"),
+    H("k_normal_window_wrap_without_history", "K-normal-early", ["C01", "C02", "C12"], fns=["compress_normal (byte-at-a-time input copy without usable history, at the window end; first token)"], cost=80, timeout=900,
+      strength="B(3 symbolic input bytes at window index 32767 with the history just cut; complete in input bytes, flags, window bits, matcher result)",
+      note="find_match / record_match / record_literal / flush_block replaced by contract models"),
+    H("k_fast_lookahead_overlap", "K-fastcap", ["C01", "C10"], fns=["compress_fast (history clamp to the window minus the lookahead before candidates are examined)"], cost=90, timeout=1200,
+      strength="B(one candidate exactly 32767 bytes back, 4 input bytes; complete in format, level, strategy, window bits, dictionary size)",
+      note="LZOxide::write_code, flush_block, copy_from_slice replaced by recording contract models; window re-allocated as Box::new arrays"),
     H("k_normal_rle_first_token", "K-normal-early", ["C01", "C02", "C10", "C12"], fns=["compress_normal (RLE branch: run detection against the previous byte, history guard)"], cost=80, timeout=900,
       strength="B(3 symbolic input bytes at window position 40000, one token decision; complete in input bytes, previous byte, flags with RLE set, window bits, dictionary size)",
       note="find_match / record_match / record_literal / flush_block replaced by contract models"),
